@@ -288,6 +288,17 @@ func checkC16(c *Check) {
 		c.Cond(s.Val.K == "call" && s.Val.Name == "time.Now", "age-sources", "user.added in "+s.Fn.Name(), s.Pos(p), "time.Now() when the session object is created", "the session's age is taken from "+shortU(s.Val))
 	}
 	c.Floor("initialisations of user.added", 1, nadd)
+	if st, ok := t.UserT.Underlying().(*types.Struct); ok {
+		for i := 0; i < st.NumFields(); i++ {
+			if st.Field(i).Name() == "added" {
+				pos := "-"
+				if ls := p.fieldLateStore(t.UserT, i); ls != nil {
+					pos = p.InstrPos(ls)
+				}
+				c.Cond(p.fieldOnlyInitialised(t.UserT, i), "age-sources", "user.added is the arrival time", pos, "written only while the session object is being built", "the arrival stamp of an existing session object is rewritten later (refreshed): the cleanup then measures the age from the last refresh instead of the arrival, and a half that keeps receiving records is never discarded")
+			}
+		}
+	}
 
 	// 3. ticker wiring
 	tickerWiring(c, t)
